@@ -174,7 +174,7 @@ def r1(report, db, cg, M, S):
                 else:
                     report.ok(R)
     nsites = n
-    me = sy(snt.params[0])
+    me = sy(snt.all_params[0])
     started = refused = 0
     for p in S.run(snt):
         starts = [e for e in p.calls() if e.method() == 'start' and (
@@ -237,7 +237,7 @@ def r2(report, db, cg, M, S):
                     'before running, and promotes itself under the lock; '
                     'the slot is cleared on every exit of run()')
     run = M.method(M.thread, 'run')
-    me = sy(run.params[0])
+    me = sy(run.all_params[0])
     conn = at(me, 'connection')
     prev = at(me, 'previous_thread')
     _run = M.method(M.thread, '_run')
@@ -383,7 +383,7 @@ def r3(report, db, cg, M):
                         inline_pred=known)
     for name in ('connect', 'status'):
         fi = M.conn_method(name)
-        me = sy(fi.params[0])
+        me = sy(fi.all_params[0])
         paths = S.run(fi)
         refused = proceeded = 0
         prob = []
@@ -463,7 +463,7 @@ def r8(report, db, cg, M, S, rid='R16.8'):
                     'that lock)')
     he = M.conn_method('_handle_exception')
     dc = M.conn_method('disconnect')
-    me = sy(he.params[0])
+    me = sy(he.all_params[0])
     n = 0
     bad = None
     for p in S.run(he):
@@ -525,7 +525,7 @@ def changes_state(e, me, M):
 # ---------------------------------------------------------------------------
 def self_attr_reads(fi):
     out = []
-    me = fi.params[0]
+    me = fi.all_params[0]
     for n in ast.walk(fi.node):
         if isinstance(n, ast.Attribute) and isinstance(n.ctx, ast.Load) and \
                 isinstance(n.value, ast.Name) and n.value.id == me:
@@ -541,7 +541,7 @@ def r4(report, db, cg, M, S):
     init = M.conn_method('__init__')
     dc = M.conn_method('disconnect')
     assigned = set()
-    me = init.params[0]
+    me = init.all_params[0]
     for n in ast.walk(init.node):
         if isinstance(n, ast.Attribute) and isinstance(n.ctx, ast.Store) and \
                 isinstance(n.value, ast.Name) and n.value.id == me:
@@ -563,7 +563,7 @@ def r4(report, db, cg, M, S):
         for cs in cg.sites.get(f, []):
             fn = cs.node.func
             if isinstance(fn, ast.Attribute) and isinstance(
-                    fn.value, ast.Name) and fn.value.id == f.params[0]:
+                    fn.value, ast.Name) and fn.value.id == f.all_params[0]:
                 for m, _, _ in cs.callees:
                     if m.cls is M.conn:
                         todo.append(m)
@@ -592,7 +592,7 @@ def r4(report, db, cg, M, S):
                              'assigned on every path of __init__' % attr)
     # publication of socket and file_object in _connect
     cn = M.conn_method('_connect')
-    cme = sy(cn.params[0])
+    cme = sy(cn.all_params[0])
     seen_pub = 0
     bad = None
     for p in S.run(cn):
@@ -635,7 +635,7 @@ def r5(report, db, cg, M, S):
                     '(both directions), closed and forgotten; a dead peer '
                     'does not make disconnect() raise')
     dc = M.conn_method('disconnect')
-    me = sy(dc.params[0])
+    me = sy(dc.all_params[0])
     pop = M.conn_method('_pop_packet')
     sock = at(me, 'socket')
     fobj = at(me, 'file_object')
@@ -812,7 +812,7 @@ def r6(report, db, cg, M, S):
     for f in scope:
         if not f.params:
             continue
-        atom = '%s.interrupt' % f.params[0]
+        atom = '%s.interrupt' % f.all_params[0]
         for lp in [n for n in ast.walk(f.node)
                    if isinstance(n, (ast.While, ast.For))]:
             if not unbounded_or_counted(lp):
@@ -837,7 +837,7 @@ def r6(report, db, cg, M, S):
                                  % head)
     report.floor('polling loops of the networking thread', nloops, 2)
     dc = M.conn_method('disconnect')
-    d = sy(dc.params[0])
+    d = sy(dc.all_params[0])
     nt, nnt = at(d, 'networking_thread'), at(d, 'new_networking_thread')
     miss = {}
     okc = {}
